@@ -37,7 +37,7 @@ K_UTXOS_STRIP = 'C08/utxos/live-rows-stripped-of-orm-state'
 K_CROSS_ACCOUNT = 'C08/multi-account/one-transaction-paying-two-accounts-booked-under-one'
 
 OPS = ['send_refused_keep', 'new_account', 'new_key', 'get_key', 'new_key_change', 'fund_update', 'fund_update', 'update', 'update_lag', 'utxo_add', 'update_list',
-       'send', 'send', 'send', 'send_nobroadcast', 'send_fail', 'sweep', 'import_raw', 'delete', 'mine', 'reopen', 'reopen']
+       'send', 'send', 'send', 'send_nobroadcast', 'send_fail', 'sweep', 'import_raw', 'delete', 'mine', 'reopen', 'reopen', 'send_offline_input']
 
 
 class History:
@@ -167,6 +167,27 @@ class History:
                     self.sync = True
             elif op in ('send', 'send_nobroadcast', 'send_fail', 'sweep'):
                 self.do_send(op)
+            elif op == 'send_offline_input':
+                # offline style spending: the input is given with value and address, the wallet has no record of the output
+                # it spends; afterwards a provider that has not seen the spend yet lists that output
+                cands = sorted(x for x in self.known if self.addr_acc.get(x, 0) == 0)
+                a = rnd.choice(cands)
+                v = 10 ** 6 * scale + rnd.randrange(1000)
+                txid, n = CH.fund(a, v, network, confirmed=True)
+                CH.snapshot()
+                key_id = w.key(a).key_id if rnd.random() < 0.5 else None
+                addr, _ = wallet_env.external_address(rnd, network)
+                nb = len(CH.broadcasts)
+                t = w.send([(addr, v // 2)], input_arr=[(txid, n, key_id, v, None, b'', a)], fee=rchain.NETWORKS[network]['fee_min'],
+                           broadcast=True, priv_keys=ctx.extra_priv or None)
+                self.after_send(t, nb)
+                if rnd.random() < 0.7:
+                    CH.faults['lag'] = 1
+                    try:
+                        w.utxos_update(account_id=0)
+                    finally:
+                        CH.faults['lag'] = 0
+                    self.sync = False
             elif op == 'send_refused_keep':
                 # a request refused *after* input selection (fee far above the limit); the caller keeps the exception object
                 bal = int(w.balance())
@@ -200,7 +221,7 @@ class History:
         except Exception as e:
             txt = '%s: %s' % (type(e).__name__, str(e)[:160])
             del e
-            if op in ('send', 'send_nobroadcast', 'send_fail', 'sweep') or (op == 'import_raw' and txt.startswith('WalletError')):
+            if op in ('send', 'send_nobroadcast', 'send_fail', 'sweep', 'send_offline_input') or (op == 'import_raw' and txt.startswith('WalletError')):
                 pass   # refusals are legitimate (insufficient funds, dust, fee limits, failing provider; import of a
                 # transaction whose inputs the wallet no longer has a value for) - the invariants are checked all the same
             else:
@@ -238,6 +259,11 @@ class History:
                               number_of_change_outputs=rnd.choice([1, 1, 2, 0]))
         finally:
             CH.faults['send'] = None
+        self.after_send(t, nb)
+
+    def after_send(self, t, nb):
+        CH, ctx = self.CH, self.ctx
+        network = ctx.network
         new_b = [b for b in CH.broadcasts[nb:] if b['accepted']]
         if t is not None and getattr(t, 'pushed', False) and new_b:
             raw = bytes.fromhex(new_b[-1]['raw'])
